@@ -109,6 +109,8 @@ struct Run<'a> {
     stamps: BTreeMap<IdS, u64>,
     next_stamp: u64,
     stamps_valid: bool,
+    /// upper bound on the queue tickets issued so far (dead ones have to be skipped by a match)
+    tickets_issued: u64,
     cancelled_once: BTreeSet<IdS>,
     // C02 ledger: supplied, traded
     ledger: BTreeMap<IdS, (i128, i128)>,
@@ -337,6 +339,7 @@ impl<'a> Run<'a> {
             bump(&mut self.out.probes, "readd_of_cancelled_id");
         }
         let lib = o.to_lib();
+        self.tickets_issued += 1;
         self.hooks.begin_op(64 * 16);
         let r = guarded(|| self.level.add_order(lib));
         self.hooks.end_op();
@@ -383,7 +386,11 @@ impl<'a> Run<'a> {
         let n = before_list.len() as u64;
         // hard cap: a state outside the generator's bounded-rounds precondition (reachable only
         // through a defect elsewhere) must not turn into an unbounded run
-        let budget = (64 * (max_visits(&before_list).min(1 << 40) + n + 8)).min(300_000);
+        // ... plus the dead tickets a match may have to step over: at most one per ticket issued
+        let budget = (64 * (max_visits(&before_list).min(1 << 40) + n + 8)).min(300_000)
+            + 8 * self.tickets_issued.min(100_000);
+        // every visit may hand an order back (a new ticket)
+        self.tickets_issued += max_visits(&before_list).min(1 << 20) + n + 2;
         self.hooks.begin_op(budget);
         let taker_lib = taker.to_lib();
         let r = guarded(|| self.level.match_order(qty, taker_lib, &self.generator));
@@ -842,6 +849,7 @@ impl<'a> Run<'a> {
         let before = self.by_id();
         let present = before.get(&u.id).cloned();
         let lib = u.to_lib();
+        self.tickets_issued += 1;
         self.hooks.begin_op(64 * 24);
         let r = guarded(|| self.level.update_order(lib));
         self.hooks.end_op();
@@ -1501,6 +1509,7 @@ impl<'a> Exec<'a> {
             stamps: BTreeMap::new(),
             next_stamp: 0,
             stamps_valid: true,
+            tickets_issued: 0,
             cancelled_once: BTreeSet::new(),
             ledger: BTreeMap::new(),
             txids: BTreeSet::new(),
